@@ -36,21 +36,29 @@ type entry struct {
 }
 
 type env struct {
-	parser   *operationparser.Parser
-	applier  *operationapplier.Applier
-	composer *doccomposer.DocumentComposer
-	handler  *dochandler.DocumentHandler
-	vdr      *sidetreelongform.VDR
-	existing *protocol.ResolutionModel
-	jwk      *jws.JWK
-	docs     []document.Document
-	states   []*protocol.ResolutionModel // existing states with a string / object / list anchor origin
+	parser  *operationparser.Parser
+	applier *operationapplier.Applier
+	// the same for a protocol whose algorithm list also names codes that the library cannot compute
+	oddParser  *operationparser.Parser
+	oddApplier *operationapplier.Applier
+	composer   *doccomposer.DocumentComposer
+	handler    *dochandler.DocumentHandler
+	vdr        *sidetreelongform.VDR
+	existing   *protocol.ResolutionModel
+	jwk        *jws.JWK
+	docs       []document.Document
+	states     []*protocol.ResolutionModel // existing states with a string / object / list anchor origin
 }
 
 func newEnv() *env {
 	p := ops.Proto()
 	e := &env{parser: operationparser.New(p), composer: doccomposer.New()}
 	e.applier = operationapplier.New(p, e.parser, e.composer)
+	// a node whose algorithm list also names codes that the multihash tables know but the library does not compute
+	odd := p
+	odd.MultihashAlgorithms = []uint{18, 0x16, 0x11, 19, 0x14, 0x15, 0x17, 0x1b, 0xb220}
+	e.oddParser = operationparser.New(odd)
+	e.oddApplier = operationapplier.New(odd, e.oddParser, e.composer)
 	var err error
 	e.handler, err = dochandler.New("did:ion")
 	if err != nil {
@@ -146,6 +154,19 @@ func (e *env) entries() []entry {
 				_, _ = e.parser.ParseDeactivateOperation(b, batch)
 			}
 		}},
+		{"Parser(with uncomputable algorithms listed)", "bytes op", func(b []byte) {
+			_, _ = e.oddParser.Parse(ns, b)
+			_, _ = e.oddParser.ParseOperation(ns, b, true)
+			_, _ = e.oddParser.GetRevealValue(b)
+			_, _ = e.oddParser.GetCommitment(b)
+			for _, typ := range []operation.Type{operation.TypeCreate, operation.TypeUpdate, operation.TypeRecover, operation.TypeDeactivate} {
+				prev := &protocol.ResolutionModel{}
+				if typ != operation.TypeCreate {
+					prev = e.existing
+				}
+				_, _ = e.oddApplier.Apply(&operation.AnchoredOperation{Type: typ, OperationRequest: b, UniqueSuffix: "EiAbc", TransactionTime: 2}, prev)
+			}
+		}},
 		{"Parser.GetRevealValue", "bytes op", func(b []byte) { _, _ = e.parser.GetRevealValue(b) }},
 		{"Parser.GetCommitment", "bytes op", func(b []byte) { _, _ = e.parser.GetCommitment(b) }},
 		{"Parser.ParseDID", "bytes did", func(b []byte) {
@@ -212,6 +233,7 @@ func (e *env) entries() []entry {
 			_ = hashing.IsValidModelMultihash(b, string(b))
 			_, _ = hashing.GetMultihashCode(string(b))
 			_ = hashing.IsComputedUsingMultihashAlgorithms(string(b), []uint{18})
+			_ = hashing.IsComputedUsingMultihashAlgorithms(string(b), []uint{0x16, 0x11, 18, 0xb220, 0x14, 0x7fffffff, 0})
 			_ = hashing.IsSupportedMultihash(string(b))
 			_, _ = commitment.GetCommitmentFromRevealValue(string(b))
 			_, _ = docutil.CalculateID(ns, b, 18)
